@@ -976,6 +976,20 @@ func (f *frame) event(in ssa.Instruction, k *an.Walk) {
 				case "Value":
 					n.Writes = append(n.Writes, "Value="+f.sym(x.Val))
 				case "Description":
+				case "Children":
+					// Children = make([]*ber.Packet, 0, n) / nil: the node has no children from here on (whatever it had is
+					// dropped - the comparison with the reference tree then shows it)
+					empty := an.IsNilConst(an.Strip(x.Val))
+					if ms, isMS := an.Strip(x.Val).(*ssa.MakeSlice); isMS {
+						if kk, isK := an.IntConst(ms.Len); isK && kk == 0 {
+							empty = true
+						}
+					}
+					if empty {
+						n.Children = nil
+					} else {
+						n.Writes = append(n.Writes, "Children="+f.sym(x.Val))
+					}
 				default:
 					n.Writes = append(n.Writes, an.FieldAddrName(fa)+"="+f.sym(x.Val))
 				}
@@ -1342,6 +1356,45 @@ func (c *Ctx) interpCall(callee *ssa.Function, call *ssa.Call, caller *frame) *i
 		return c.interpG(callee, env, map[string]bool{}, pass, caller.g)
 	}
 	val, undecided := c.decideOptAtoms(callee, env, 0)
+	if undecided != "" && len(pass) == 0 {
+		// the callee branches on something the call does not decide (`if len(xs) > cap(p.Children) { pre-size }`): when it
+		// is handed no packet of the caller's and builds the same tree whichever way its undecided branches go (at most
+		// three of them), that tree is the result
+		w := &an.Walker{Fn: callee}
+		var free []string
+		for _, a := range w.CondAtoms() {
+			if _, has := val[a]; !has {
+				free = append(free, a)
+			}
+		}
+		if len(free) <= 3 {
+			var first *interpResult
+			same := true
+			for _, fv := range an.Valuations(free) {
+				merged := map[string]bool{}
+				for a, b := range val {
+					merged[a] = b
+				}
+				for a, b := range fv {
+					merged[a] = b
+				}
+				r := c.interp(callee, env, merged, pass)
+				if r == nil || r.undec != "" || r.result == nil {
+					same = false
+					break
+				}
+				if first == nil {
+					first = r
+				} else if first.result.String() != r.result.String() || strings.Join(first.retExpr, "|") != strings.Join(r.retExpr, "|") {
+					same = false
+					break
+				}
+			}
+			if same && first != nil {
+				return first
+			}
+		}
+	}
 	if undecided != "" {
 		return &interpResult{undec: "callee " + an.ShortName(callee) + " branches on " + undecided, notes: []string{"inlined callee " + an.ShortName(callee) + " branches on " + undecided + "; not interpreted"}}
 	}
